@@ -119,7 +119,7 @@ class C28(core.Check):
     ID = 'C28'
     GEN = ['gen_dosnames']
     PROPS = 'props/C28.v'
-    MODEL_IMPORTS = ['gen.Gen_dosnames', 'model.DosNames', 'model.Paths', 'model.PathsNt']
+    MODEL_IMPORTS = ['gen.Gen_dosnames', 'model.DosNames', 'model.Paths', 'model.PathsNt', 'model.PathsLocks']
     QUICK_CASES = 900
     THOROUGH_CASES = 9000
     TRUSTED = [
@@ -287,7 +287,10 @@ class C28(core.Check):
     def impl(self, case):
         k = case['k']
         if k in ('hist', 'consist'):
-            return self._hist(case)[1]
+            # statuses, host traces, listings, working directories; then the lock table of the drive after every
+            # statement (files still open) and after the CLOSE that follows it
+            r = self._hist(case)
+            return r[1] + [x for d in r[4] for x in d['locks']]
         dev = self._device()
         disk = self._disk
         if k == 'fn':
@@ -350,7 +353,7 @@ class C28(core.Check):
         k = case['k']
         if k in ('hist', 'consist'):
             hc, out, snaps, viol, details = self._hist(case)
-            return base.history_term(hc, snaps)
+            return base.history_term(hc, snaps, with_locks=True)
         if k == 'fn':
             n, m, h = zl(case['n']), zl(case['m']), zl(case['h'])
             return ('(let n := %s in let m := %s in let h := %s in '
